@@ -23,7 +23,7 @@ meta = {
   "confirmed_by_me": {"how": "tools/seed_verify.sh in a fresh scratch worktree of /repo HEAD: make; demo on pristine tree; git apply patch.diff; make; "
                              "make -C tests test; demo on patched tree; then ./check with VERIF_REPO pointing at the patched tree; worktree removed",
                       "result": sv[0] if sv else ""},
-  "check_result": {"first_run": first, "now": "VIOLATION with native replay rc 1", "caught_by": caught_by, "note": note},
+  "check_result": {"first_run": first, "now": os.environ.get("SEEDNOW", "VIOLATION with native replay rc 1"), "caught_by": caught_by, "note": note},
   "run": "git -C /repo apply /verif/seeded/%s/patch.diff && (cd /verif && ./check %s); git -C /repo checkout -- ." % (name, prop),
 }
 json.dump(meta, open(dst + "/meta.json", "w"), indent=1)
